@@ -22,7 +22,7 @@ theorem unfoldItems_expRel {T : Types} :
   | (n, k) :: ks, (n', t) :: out, ⟨⟨hn, h1⟩, h2⟩, T', F, he, hF => by
     simp only at hn
     subst hn
-    simp only [unfoldItems, h1 T' F he hF, unfoldItems_expRel h2 T' F he hF, Forest.ofList, renF]
+    simp only [unfoldItems, h1.1 T' F he hF, unfoldItems_expRel h2 T' F he hF, Forest.ofList, renF]
   | [], _ :: _, hf, _, _, _, _ => hf.elim
   | _ :: _, [], hf, _, _, _, _ => hf.elim
 
@@ -53,8 +53,8 @@ theorem interfaceDecl_ok {st st' : St} {id : Option Str} {items : List Item} {i 
     obtain ⟨s', out'⟩ := res
     cases hr
     have hk := k1 container ifaces { next := next } [] (s', out)
-      (fun n => by simp [alGet, Scope.get]; trivial) (fun n q hq => by simp [Scope.get, alGet] at hq) trivial hres hnd
-    obtain ⟨_, _, hexp⟩ := hk
+      (fun n => by simp [alGet, Scope.get]; trivial) trivial hres hnd
+    obtain ⟨_, hexp⟩ := hk
     intro T' F he hF
     have hsz : kb (Elab.addInterface { st1 with scope := st.scope } itf).1.types = kb st1.types + 1 := by
       simp [kb, vb, Elab.addInterface, Types.size]; omega
@@ -133,5 +133,42 @@ theorem elabIfaces_ok (p : Pkg) :
       · have hs2 : Types.size st1.types ≤ Types.size st'.types := g2.size
         exact HK.mono hk g2.ext (by unfold kb vb; omega)
       · exact hall
+
+theorem All2_length {α β : Type} {R : α → β → Prop} : ∀ {xs : List α} {ys : List β}, All2 R xs ys → xs.length = ys.length
+  | [], [], _ => rfl
+  | _ :: _, _ :: _, ⟨_, h⟩ => by simp [All2_length h]
+  | [], _ :: _, hf => hf.elim
+  | _ :: _, [], hf => hf.elim
+
+theorem All2_right {α β : Type} {R : α → β → Prop} {Q : β → Prop} (hq : ∀ x y, R x y → Q y) :
+    ∀ {xs : List α} {ys : List β}, All2 R xs ys → ∀ y ∈ ys, Q y
+  | [], [], _, _, hm => by cases hm
+  | _ :: _, _ :: _, ⟨h1, h2⟩, y, hm => by
+    rcases List.mem_cons.mp hm with rfl | hm
+    · exact hq _ _ h1
+    · exact All2_right hq h2 y hm
+  | [], _ :: _, hf, _, _ => hf.elim
+  | _ :: _, [], hf, _, _ => hf.elim
+
+theorem elabPkg_ifaces (p : Pkg) (hw : p.worlds = []) (T : Types) (h : elabPkg p = .ok T) :
+    ∃ st, elabIfaces p p.ifaces {} = .ok st ∧ T = st.types := by
+  unfold elabPkg at h
+  simp only [hw, List.foldlM_nil] at h
+  split at h
+  · cases h
+  · rename_i st hst
+    cases h
+    exact ⟨st, hst, rfl⟩
+
+theorem denotePkg_ifaces (p : Pkg) (hw : p.worlds = []) (env : Env) (h : denotePkg [] 0 p = some env) :
+    denIfaces p p.ifaces { ifaces := [], ids := [], next := 0 } = some env := by
+  unfold denotePkg at h
+  simp only [hw, List.foldlM_nil, List.map_nil] at h
+  split at h
+  · cases h
+  · rename_i env1 henv
+    simp only [Option.pure_def, Option.some.injEq] at h
+    subst h
+    exact henv
 
 end Wac.Elab
